@@ -3,6 +3,7 @@ package main
 // Symbolic executor over go/ssa.
 
 import (
+	"os"
 	"fmt"
 	"go/constant"
 	"go/token"
@@ -193,6 +194,8 @@ func (e *Exec) runInit(p *ssa.Package) {
 
 const maxDepth = 400
 
+var traceCalls = os.Getenv("GOSMT_TRACE") != ""
+
 func (e *Exec) callFunction(fn *ssa.Function, args []Value, bind []Value) Value {
 	if len(e.run.stubFns) > 0 && !e.run.inInit {
 		key := strings.ReplaceAll(fn.String(), modPath+"/", "")
@@ -218,6 +221,9 @@ func (e *Exec) callFunction(fn *ssa.Function, args []Value, bind []Value) Value 
 	}
 	if fn.Pkg != nil && e.isOwnPkg(fn.Pkg) && !strings.HasPrefix(fn.Name(), "ZZ_") && !strings.HasPrefix(fn.Name(), "zz") && !e.run.inInit {
 		e.run.funcs[fn.String()] = true
+	}
+	if traceCalls {
+		fmt.Fprintf(os.Stderr, "%*s%s steps=%d\n", e.depth, "", fn.String(), e.steps)
 	}
 	e.depth++
 	if e.depth > maxDepth {
